@@ -472,6 +472,15 @@ def r7_base_emitted_first(prog, res):
             o = obj_of_name(a[2])
             if o is None:
                 continue
+            if o["k"] == "Ref" and o.get("dk") == "local":
+                # a local that holds the type: every assignment before the call gives it the same expression
+                defs = [a_["ch"][1] for a_ in f.walk() if a_["k"] == "Assign" and a_.get("op", "=") == "=" and a_["l"] < c["l"] and
+                        strip(a_["ch"][0]) is not None and strip(a_["ch"][0])["k"] == "Ref" and strip(a_["ch"][0]).get("d") == o["d"]]
+                defs += [v_["ch"][0] for v_ in f.walk() if v_["k"] == "Var" and v_.get("d") == o["d"] and v_.get("ch") and v_["ch"][0] is not None]
+                if defs and len({clones._canon(f, strip(x), {}) for x in defs}) == 1:
+                    o = strip(defs[0])
+                    while o is not None and o["k"] in ("Cast", "Paren") and o.get("ch"):
+                        o = strip(o["ch"][0])
             tp = [p_ for p_ in f.params if any(y["k"] == "Ref" and y.get("d") == p_["d"] for y in walk(o))]
             if len(tp) == 1:
                 emit[f.key] = (f, c, subst(f, o, tp[0]["d"]), f.params.index(tp[0]))
@@ -509,8 +518,9 @@ def r7_base_emitted_first(prog, res):
                 res.add("R7.base_emitted_first", "R7|%s|%s|%s" % (f.relfile(), f.name, ef.name), f.where(asg[-1]), ok,
                         "%s prints a type when `%s` is processed, and %s names `%s` as the base class: the same type" % (f.name, G, ef.name, H) if ok else
                         "%s prints a defined type as soon as `%s` has been printed, but %s (line %s) names `%s` as its base class: for "
-                        "TYPE a = REAL; TYPE b = a; TYPE c = b; `class c(b)` can be printed before `class b(a)` and the module fails to import "
-                        "with NameError" % (f.name, G, ef.name, ec["l"], H))
+                        "TYPE a = REAL; TYPE b = a; TYPE c = b; either `class c(b)` can be printed before `class b(a)` (the module fails to import "
+                        "with NameError) or `c` is given a base other than the type it was declared from (`class c(a)`: b's WHERE rules and "
+                        "the subclass relation are lost)" % (f.name, G, ef.name, ec["l"], H))
     res.floor("R7.base_emitted_first", "schedulers of class-header emitters", n, 1)
 
 
